@@ -17,7 +17,8 @@ RULE = ('(A) grid: every x in 0..N for every (b, s<=b) with b up to the tier bou
         'within 1 of a multiple of s or of a window end (boundary case) - counted per distinct (copy,x,b,s). '
         '(B) table: generated BAMs (1-3 contigs, 1-4 cells, sites at exact multiples of b and s, 0, contig end-1 and random) '
         'through create_count_table(bin=b, sliding=s|None, keepOverBounds on/off, bin tag DS / a custom tag / reference_start); '
-        'a table case is non-trivial when at least one site is an exact multiple of s and one window is rejected or kept over bounds.')
+        'a table case is non-trivial when at least one site is an exact multiple of s and one window is rejected or kept over bounds.'
+        ' Plus two files with different contig lengths in one call and a second call with the same argument namespace.')
 ASSUMPTIONS = ['floor-based integer bin arithmetic is the specification: window i is [i*s, i*s+b)',
                'a bin is "inside the contig" when start>=0 and end<=contig length (the documented --keepOverBounds rule)']
 MIN_NONTRIVIAL = {'quick': 2000, 'thorough': 50000}
